@@ -4,6 +4,7 @@ package c01
 import (
 	"encoding/json"
 	"fmt"
+	"runtime/debug"
 	"strings"
 
 	"verifharness/mc"
@@ -176,7 +177,18 @@ func roundTrip(pat *ref.Pattern, kv []ref.KV, host, path string) string {
 }
 
 // eval evaluates one request; returns (abstained, nontrivial, class, msg).
-func eval(e *rsx.Env, a *aux, rq rsx.Req) (bool, bool, string, string) {
+func eval(e *rsx.Env, a *aux, rq rsx.Req) (abst, nontriv bool, class, msg string) {
+	// a panic of the implementation on any entry point (the transaction views included) is a finding
+	defer func() {
+		if pv := recover(); pv != nil {
+			abst, nontriv, class = false, true, "panic"
+			msg = fmt.Sprintf("panic: %v: set %s request %s\n%s", pv, rsx.SetString(e.Set), rq, mc.NormStack(string(debug.Stack()), 10))
+		}
+	}()
+	return eval0(e, a, rq)
+}
+
+func eval0(e *rsx.Env, a *aux, rq rsx.Req) (bool, bool, string, string) {
 	want, decided := e.RefLookup(rq.Method, rq.Host, rq.MatchPath())
 	o := e.Observe(rq)
 	if o.Panic != "" {
